@@ -50,6 +50,17 @@ theorem parseNat_ok (n : Nat) (r : Toks) (h : NF r) : parseNat (.int (n : Int) :
 @[simp] theorem atKeyword_flt (k s : String) (r : Toks) : atKeyword k (.flt s :: r) = false := rfl
 @[simp] theorem atKeyword_str (k s : String) (r : Toks) : atKeyword k (.str s :: r) = false := rfl
 @[simp] theorem atKeyword_eof (k : String) (r : Toks) : atKeyword k (.eof :: r) = false := rfl
+@[simp] theorem wordAhead_sym (s : String) (r : Toks) : wordAhead (.sym s :: r) = .no := rfl
+@[simp] theorem wordAhead_int (v : Int) (r : Toks) : wordAhead (.int v :: r) = .no := rfl
+@[simp] theorem wordAhead_str (s : String) (r : Toks) : wordAhead (.str s :: r) = .no := rfl
+@[simp] theorem wordAhead_id_sym (s x : String) (r : Toks) : wordAhead (.id s :: .sym x :: r) = .no := by
+  simp only [wordAhead]; split <;> rfl
+@[simp] theorem wordAhead_load (x : String) (r : Toks) : wordAhead (.id "load" :: .id x :: r) = .no := by
+  simp [wordAhead]
+@[simp] theorem wordAhead_rol (x : String) (r : Toks) : wordAhead (.id "rol" :: .id x :: r) = .yes := by
+  simp [wordAhead]
+@[simp] theorem wordAhead_ror (x : String) (r : Toks) : wordAhead (.id "ror" :: .id x :: r) = .yes := by
+  simp [wordAhead]
 @[simp] theorem peek_cons (t : Tok) (r : Toks) : peek (t :: r) = t := rfl
 @[simp] theorem typ_id (s : String) : (Tok.id s).typ = "ID" := rfl
 @[simp] theorem typ_sym (s : String) : (Tok.sym s).typ = s := rfl
@@ -264,7 +275,6 @@ theorem symCond_symbol (c : Cond) : symCond c.symbol = some c := by cases c <;> 
 structure PrintOk (fmt : Nat → List Char) (fparse : String → Option Nat) (i : Instr) : Prop where
   noAsm : ∀ tpl a b c, i ≠ .asm tpl a b c
   flt : ∀ d ty b, i = .const d ty (.fbits b) → fparse (String.ofList (fmt b)) = some b
-  rol : ∀ d ty a b, (i = .binop d ty .rol a b ∨ i = .binop d ty .ror a b) → opName a ∉ assignKeywords
   bytes : ∀ d data, i = .literal d data → ∀ x ∈ data, x < 256
 
 theorem unhexlify_hexlify' (bs : List Nat) (h : ∀ x ∈ bs, x < 256) : unhexlify (hexlify bs) = .ok bs := by
@@ -455,18 +465,12 @@ theorem parseStatementCore_ok (fmt : Nat → List Char) (fparse : String → Opt
       from rfl, List.append_assoc, parseStatementCore_assign]
     by_cases hrol : op = .rol
     · subst hrol
-      have hk := hp.rol d ty a b (Or.inl rfl)
-      have hk' : ∀ k ∈ assignKeywords, ¬ opName a = k := fun k hk'' e => hk (e ▸ hk'')
       simp [parseAssignment, opTok, binopTok, bind, Except.bind, pure, Except.pure, eraseInstr, normPhiInstr,
-        eraseOpnd, hk' "phi" (by decide), hk' "alloc" (by decide), hk' "load" (by decide), hk' "cast" (by decide),
-        hk' "call" (by decide), hk' "literal" (by decide), hk' "volatile" (by decide), hk' "undefined" (by decide), hk' "float" (by decide)]
+        eraseOpnd]
     · by_cases hror : op = .ror
       · subst hror
-        have hk := hp.rol d ty a b (Or.inr rfl)
-        have hk' : ∀ k ∈ assignKeywords, ¬ opName a = k := fun k hk'' e => hk (e ▸ hk'')
         simp [parseAssignment, opTok, binopTok, bind, Except.bind, pure, Except.pure, eraseInstr, normPhiInstr,
-          eraseOpnd, hk' "phi" (by decide), hk' "alloc" (by decide), hk' "load" (by decide), hk' "cast" (by decide),
-          hk' "call" (by decide), hk' "literal" (by decide), hk' "volatile" (by decide), hk' "undefined" (by decide), hk' "float" (by decide)]
+          eraseOpnd]
       · have hbt : binopTok op = .sym op.symbol := by cases op <;> first | rfl | exact absurd rfl hrol | exact absurd rfl hror
         have hn : next (Tok.sym op.symbol :: Tok.id (opName b) :: Tok.sym ";" :: rest) =
             .ok (Tok.sym op.symbol, Tok.id (opName b) :: Tok.sym ";" :: rest) := next_ok _ _ (by simp) (by simp)
